@@ -31,6 +31,9 @@ type scn struct {
 	// closeErr: the transport's Close tears the connection down but reports an error (as
 	// crypto/tls does when its close_notify cannot be written)
 	closeErr bool
+	// oneByte: the transport hands over one byte per Read, so every read of a packet body goes
+	// to the connection (and arms its own deadline) instead of finding the bytes buffered
+	oneByte bool
 }
 
 func withCloseErr(s scn) scn {
